@@ -348,7 +348,19 @@ func TestVerif_C11_Attest(t *testing.T) {
 	if gov == nil || tb == nil || len(gov.Event) != 6 {
 		t.Fatalf("VERIF-VIOLATION harness/extractor: contract files / WormholeMessage event not extracted")
 	}
-	str := rapid.StringMatching(`[A-Za-z0-9 ._-]{0,32}`)
+	// up to 32 bytes, possibly with NUL bytes in the interior (never at the edges, which are padding)
+	str := rapid.Custom(func(t *rapid.T) string {
+		s := rapid.StringMatching(`[A-Za-z0-9 ._-]{0,32}`).Draw(t, "s")
+		if len(s) >= 3 && rapid.IntRange(0, 3).Draw(t, "nul") == 0 {
+			b := []byte(s)
+			n := rapid.IntRange(1, 3).Draw(t, "nnul")
+			for i := 0; i < n; i++ {
+				b[rapid.IntRange(1, len(b)-2).Draw(t, "pos")] = 0
+			}
+			s = string(b)
+		}
+		return s
+	})
 	vh.Check(t, vh.Prop[attestCase]{ID: "C11", Gen: func(t *rapid.T) attestCase {
 		return attestCase{TokenSeed: rapid.Uint64Range(1, 1000).Draw(t, "token"), Decimals: rapid.OneOf(rapid.Uint64Range(0, 18), rapid.Uint64Range(0, 255), rapid.Uint64Range(250, 260)).Draw(t, "dec"),
 			Symbol: str.Draw(t, "sym"), Name: str.Draw(t, "name"), PadLeft: rapid.Bool().Draw(t, "padleft"), Nonce: vh.U32Edge().Draw(t, "nonce"),
